@@ -238,6 +238,11 @@ impl Monitor for C13 {
             return;
         }
         // accepted: cap (if any) is not below the initial supply
+        if let (Some((_, Some(cap))), None) = (&cfg.mint, sum) {
+            // the initial balances do not even fit 128 bits: certainly above any cap
+            h.violate("C13/instantiate/accepted-with-supply-above-cap", format!("instantiate accepted with initial balances summing beyond 2^128 and cap {cap}"));
+            return;
+        }
         if let (Some((_, Some(cap))), Some(sum)) = (&cfg.mint, sum) {
             if !h.check(sum <= *cap, "C13/instantiate/accepted-with-supply-above-cap", || {
                 format!("instantiate accepted with initial supply {sum} above cap {cap}")
